@@ -20,8 +20,12 @@ import time
 
 import vlib
 
-HEADER = ("From Coq Require Import List ZArith Bool.\nImport ListNotations.\n"
-          "From GT Require Import Base.Verdict Base.Conc WGModel WGSpec WGJudge.\n")
+HEADER = ("From Coq Require Import List ZArith Bool Uint63.\nImport ListNotations.\n"
+          "From GT Require Import Base.Verdict.\nFrom GT Require Import Base.Conc.\n"
+          "From GT Require Import WGModel WGSpec WGJudge.\n")
+CASE_TYPE = "list int"
+# files the judge needs that are not in the Require cone of the property theorems
+COQ_TARGETS = ["WGJudge.vo", "WGProg.vo", "WGSearch.vo"]
 
 EXPORT_VERIF = '''package gsync
 
@@ -95,26 +99,53 @@ def tie(ctx, ir):
     return False, "unknown", "gen_prog <> hand_prog:\n" + out[-1500:]
 
 
-def run_harness(ctx, binp, runs, timeout=1500):
-    terms, jsons, err = vlib.harness_cases(ctx, binp, runs, timeout=timeout)
-    return terms, jsons, err
+def run_harness(ctx, binp, runs, timeout=3000):
+    """run the harness once per (tag, [args]); collect the index-aligned packed case terms and
+    JSON cases, and the ENUM lines (schedules enumerated per program) it prints"""
+    terms, jsons, enums = [], [], []
+    for tag, args in runs:
+        prefix = os.path.join(ctx.scratch, "cases_%s" % tag)
+        rc, out = vlib.sh([binp, "-seed", str(ctx.seed), "-out", prefix] + [str(a) for a in args],
+                          timeout=timeout)
+        if rc != 0:
+            return terms, jsons, enums, "harness %s failed (rc %d):\n%s" % (tag, rc, out[-3000:])
+        t = open(prefix + ".cases").read().splitlines()
+        j = [json.loads(l) for l in open(prefix + ".jsonl").read().splitlines()]
+        if len(t) != len(j):
+            return terms, jsons, enums, "harness %s wrote %d terms but %d json cases" % (tag, len(t), len(j))
+        terms += t
+        jsons += j
+        for m in re.finditer(r'^ENUM program="([^"]*)" mode=(\S+) pre=(-?\d+) threads=(\d+) schedules=(\d+) steps=(\d+) complete=(\w+)', out, re.M):
+            enums.append({"program": m.group(1), "mode": m.group(2), "preemption_bound": int(m.group(3)),
+                          "threads": int(m.group(4)), "schedules": int(m.group(5)),
+                          "steps": int(m.group(6)), "complete": m.group(7) == "true"})
+    return terms, jsons, enums, None
 
 
 def judge(ctx, judge_name, terms, tag, shard=None):
-    # elaborating the case literals dominates (about 20 ms per case, the evaluation itself takes
-    # 0.2 ms): spread the cases over 16 coqc processes
+    """judge packed cases in the kernel VM.  Code of a case = verdict (0/1/2) + 6 when the two
+    formulations of the C01 monitor (streaming c01_ok, per-call c01_decl) disagree on the
+    recorded trace; 9 = the words do not decode.  Returns (bad [(index, verdict)], nontrivial, err)."""
     if shard is None:
-        shard = max(40, -(-len(terms) // 16))
-    # one evaluation gives the verdict (0/1/2) and, times 3, the cross-check of the two
-    # formulations of the C01 monitor (streaming c01_ok vs per-call c01_decl)
-    comb = "(fun c => %s c + 3 * mon_agree c)" % judge_name
-    bad, nt, err = ctx.judge_cases(HEADER, "wg_case", comb, terms, shard=shard,
-                                   nontrivial="wg_nontrivial", tag=tag, timeout=1500)
-    disagree = [i for i, c in bad if c >= 3]
+        shard = max(100, -(-len(terms) // 16))
+    # canary: a word list that does not decode is appended; the judge must flag it (code 9),
+    # otherwise the evaluation or the parsing of its output is broken and "0 bad" means nothing
+    canary = len(terms)
+    bad, nt, err = ctx.judge_cases(HEADER, CASE_TYPE, "enc_judge %s" % judge_name, terms + ["[7]%uint63"],
+                                   shard=shard, nontrivial="enc_nontrivial", tag=tag, timeout=1500)
+    if err:
+        return bad, nt, err
+    if (canary, 9) not in bad:
+        return bad, nt, "the judge did not flag the canary case: its output is not being read correctly"
+    bad = [(i, c) for i, c in bad if i != canary]
+    undec = [i for i, c in bad if c == 9]
+    if undec:
+        return bad, nt, "%d packed cases do not decode (first index %d)" % (len(undec), undec[0])
+    disagree = [i for i, c in bad if c >= 6]
     if disagree:
         ctx.cov["monitor_cross_check_disagreements"] = ctx.cov.get("monitor_cross_check_disagreements", 0) + len(disagree)
     bad = [(i, c % 3) for i, c in bad if c % 3]
-    return bad, nt, err
+    return bad, nt, None
 
 
 # ---------------------------------------------------------------- minimisation
@@ -148,26 +179,27 @@ def _sched_candidates(progs, sched):
 
 
 def replay_batch(ctx, binp, cands, tag):
-    """run (progs-without-probe, sched) candidates on the real code; returns terms, jsons"""
-    terms, jsons = [], []
-    for k, (progs, sched) in enumerate(cands):
-        f = os.path.join(ctx.scratch, "rp_%s_%d.json" % (tag, k))
+    """run (progs-without-probe, sched) candidates on the real code in one harness process;
+    returns index-aligned terms, jsons (None where the run failed)"""
+    if not cands:
+        return [], []
+    batch = []
+    for progs, sched in cands:
         nprobe = len(progs)
-        with open(f, "w") as fh:
-            json.dump({"progs": progs + [[{"k": "wait"}]],
-                       "sched": [x for x in sched if x < nprobe]}, fh)
-        prefix = os.path.join(ctx.scratch, "rp_%s_%d" % (tag, k))
-        rc, out = vlib.sh([binp, "-seed", str(ctx.seed), "-out", prefix, "-mode", "replay", "-file", f],
-                          timeout=120)
-        if rc != 0 or not os.path.isfile(prefix + ".cases"):
-            terms.append(None)
-            jsons.append(None)
-            continue
-        t = open(prefix + ".cases").read().splitlines()
-        j = [json.loads(l) for l in open(prefix + ".jsonl").read().splitlines()]
-        terms.append(t[0] if t else None)
-        jsons.append(j[0] if j else None)
-    return terms, jsons
+        batch.append({"progs": progs + [[{"k": "wait"}]], "sched": [x for x in sched if x < nprobe]})
+    f = os.path.join(ctx.scratch, "rp_%s.json" % tag)
+    with open(f, "w") as fh:
+        json.dump({"batch": batch}, fh)
+    prefix = os.path.join(ctx.scratch, "rp_%s" % tag)
+    rc, out = vlib.sh([binp, "-seed", str(ctx.seed), "-out", prefix, "-mode", "replay", "-file", f],
+                      timeout=600)
+    if rc != 0 or not os.path.isfile(prefix + ".cases"):
+        return [None] * len(cands), [None] * len(cands)
+    t = open(prefix + ".cases").read().splitlines()
+    j = [json.loads(l) for l in open(prefix + ".jsonl").read().splitlines()]
+    if len(t) != len(cands):
+        return [None] * len(cands), [None] * len(cands)
+    return t, j
 
 
 def minimise(ctx, binp, judge_name, j, rounds=8):
@@ -186,8 +218,8 @@ def minimise(ctx, binp, judge_name, j, rounds=8):
             idx = [i for i, t in enumerate(terms) if t]
             if not idx:
                 break
-            bad, _, err = ctx.judge_cases(HEADER, "wg_case", judge_name, [terms[i] for i in idx],
-                                          shard=4000, tag="min_%s%d" % (phase, rnd))
+            bad, _, err = judge(ctx, judge_name, [terms[i] for i in idx],
+                                "min_%s%d" % (phase, rnd), shard=4000)
             if err:
                 break
             ok = [idx[k] for k, code in bad if code == 1]
@@ -270,18 +302,28 @@ def run_check(ctx, pid):
     judge_name = {"C01": "c01_judge", "C02": "c02_judge"}[pid]
     ctx.trusted = TRUSTED
     ctx.assumptions = ASSUMPTIONS
-    ctx.obligations_or_violation()
+    ctx.coq_targets = COQ_TARGETS
+    broken = []        # (what, detail, features): obligations that do not check; reported AFTER
+    #                    the failing inputs, and as no-failing-input-found only when the schedule
+    #                    search on the real code found none
+    ok, detail = ctx.proof_obligations()
+    ctx.log("proof obligations:", "OK" if ok else "BROKEN", "-", detail.splitlines()[0])
+    if not ok:
+        broken.append(("theorem file Props/%s.v" % pid, detail, {"kind": "proof_obligation"}))
     binp, ir, log = prepare(ctx)
-    broken = []        # (what, detail) obligations without a failing input so far
     if ir:
-        ok, which, detail = tie(ctx, ir)
-        ctx.log("tie (T):", "OK" if ok else "BROKEN", "-", detail.splitlines()[0])
-        ctx.cov["tie_T"] = {"ok": ok, "which": which}
-        if not ok:
-            broken.append(("tie WGProgGen.gen_prog = WGProg.hand_prog (translator tie)", detail))
+        tok, which, tdetail = tie(ctx, ir)
+        ctx.log("tie (T):", "OK" if tok else "BROKEN", "-", tdetail.splitlines()[0])
+        ctx.cov["tie_T"] = {"ok": tok, "which": which,
+                            "means": "gen_prog (IR regenerated from the source) = hand_prog, whose denotation "
+                                     "is the machine of the theorems (WGDenote.denote_current)"}
+        if not tok:
+            broken.append(("tie WGProgGen.gen_prog = WGProg.hand_prog (translator tie)", tdetail, {"kind": "tie"}))
     if not binp:
         ctx.report({"unchecked": "instrumentation / harness build against the current tree",
                     "detail": log[-3000:]}, {"kind": "build"}, failing_input=False)
+        for what, d, feat in broken:
+            ctx.report({"unchecked": what, "detail": d}, feat, failing_input=False)
         return
     quick = ctx.tier == "quick"
     t0 = time.time()
@@ -293,12 +335,15 @@ def run_check(ctx, pid):
                 ("randprog", ["-mode", "randprog", "-n", 70, "-tmoevery", 5])]
     else:
         runs = [("corpus", ["-mode", "corpus"]),
+                # every schedule of every 2-goroutine program of the catalogue
+                ("exh2", ["-mode", "exhaustive", "-progs", "2,3,4,7,8", "-max", 400000, "-tmoevery", 500]),
+                # every schedule with <= 2 preemptions of every program (3 and 4 goroutines included)
                 ("pb2", ["-mode", "pb", "-pre", 2, "-tmoevery", 50]),
-                ("pb3", ["-mode", "pb", "-pre", 3, "-progs", "0,2,3,4", "-tmoevery", 50]),
-                ("exh", ["-mode", "exhaustive", "-progs", "0,2,3,4", "-max", 60000, "-tmoevery", 200]),
+                ("pb3", ["-mode", "pb", "-pre", 3, "-progs", "0,1,5", "-max", 60000, "-tmoevery", 200]),
+                ("exh3", ["-mode", "exhaustive", "-progs", "0", "-max", 60000, "-tmoevery", 200]),
                 ("random", ["-mode", "random", "-n", 600, "-tmoevery", 20]),
                 ("randprog", ["-mode", "randprog", "-n", 3000, "-tmoevery", 20])]
-    terms, jsons, err = run_harness(ctx, binp, runs)
+    terms, jsons, enums, err = run_harness(ctx, binp, runs)
     if err:
         ctx.report({"unchecked": "harness run", "detail": err}, {"kind": "harness"}, failing_input=False)
         return
@@ -329,17 +374,19 @@ def run_check(ctx, pid):
     if ctx.cov.get("tie_T", {}).get("which") == "pinned" and (not quick or os.environ.get("VERIF_WG_ORIG")):
         # the source is the pinned algorithm: check that the recorded traces are those of the
         # [_orig] machine, about which the refutation theorems speak
-        obad, _, oerr = ctx.judge_cases(HEADER, "wg_case", judge_name + "_orig", terms,
-                                        shard=max(40, -(-len(terms) // 16)), tag="orig", timeout=1500)
+        obad, _, oerr = judge(ctx, judge_name + "_orig", terms, "orig")
         if not oerr:
             od = sum(1 for _, c in obad if c == 2)
             ctx.cov["pinned_model_differences"] = od
             ctx.log("the %d traces compared with the model of the pinned code (wgo_exec): %d differ" % (len(terms), od))
-    if broken and not fails:
-        # search: widened enumeration on the implementation
-        ctx.log("an obligation broke without a failing input: widening the schedule search")
-        wterms, wjsons, err = run_harness(ctx, binp, [
+    searched = len(terms)
+    if (broken or diffs or ctx.cov.get("monitor_cross_check_disagreements")) and not fails:
+        # something broke but no recorded trace violates the property yet: search schedules on
+        # the real code before saying that no failing input was found
+        ctx.log("an obligation / the correspondence broke without a failing input: widening the schedule search")
+        wterms, wjsons, wenums, err = run_harness(ctx, binp, [
             ("w_pb2", ["-mode", "pb", "-pre", 2, "-tmoevery", 0]),
+            ("w_exh", ["-mode", "exhaustive", "-progs", "2,3,4", "-max", 20000, "-tmoevery", 0]),
             ("w_rand", ["-mode", "randprog", "-n", 1500, "-tmoevery", 0])])
         if not err:
             wbad, _, err = judge(ctx, judge_name, wterms, "widen")
@@ -347,9 +394,12 @@ def run_check(ctx, pid):
                 base = len(terms)
                 terms += wterms
                 jsons += wjsons
+                enums += wenums
+                searched = len(terms)
                 fails += [(base + i, c) for i, c in wbad if c == 1]
                 diffs += [(base + i, c) for i, c in wbad if c == 2]
-    # report failing inputs: smallest first, minimised
+    # 1. failing inputs (verdict 1) first: fewest preemptions / shortest first, minimised; they
+    #    get the replay slots
     fails.sort(key=lambda ic: (jsons[ic[0]]["preemptions"], len(jsons[ic[0]]["sched"]), ic[0]))
     shapes = set()
     reported = set()
@@ -370,10 +420,13 @@ def run_check(ctx, pid):
         reported.add(key)
         rep = {"case": view(j), "replay_input": {"progs": j["progs"], "sched": j["sched"]},
                "verdict": "the trace recorded from the real code violates the %s monitor (%s)" % (
-                   pid, "c01_ok" if pid == "C01" else "c02_ok / WaitTimeout probe"),
+                   pid, "c01_ok = c01_spec on this well-formed trace" if pid == "C01" else "c02_ok / WaitTimeout probe"),
                "expected": "c01_ok = true" if pid == "C01" else "c02_ok = true and WaitTimeout probe = (nil iff sum of deltas = 0)",
+               "also_unchecked": [w for w, _, _ in broken],
                "replay_cmd": "./check %s --replay <this file>" % pid}
         ctx.report(rep, features(j, code, pid), failing_input=True)
+    # 2. then what only differs from the model, and the obligations that do not check - with
+    #    no-failing-input-found when the search above found no violating schedule
     if ctx.cov.get("monitor_cross_check_disagreements"):
         ctx.report({"unchecked": "cross-check of the two formulations of the C01 monitor (c01_ok vs c01_decl) on the recorded traces",
                     "detail": "%d traces judged differently" % ctx.cov["monitor_cross_check_disagreements"]},
@@ -383,14 +436,15 @@ def run_check(ctx, pid):
             j = jsons[i]
             rep = {"case": view(j), "replay_input": {"progs": j["progs"], "sched": j["sched"]},
                    "unchecked": "correspondence: the recorded trace satisfies the monitor but differs from the model's trace for the same schedule",
+                   "searched": "%d schedules on the implementation, none violates the monitor" % searched,
                    "replay_cmd": "./check %s --replay <this file>" % pid}
             ctx.report(rep, {"kind": "correspondence", "code": 2}, failing_input=False)
         if diffs:
             ctx.violations += ["(not written)"] * max(0, len(diffs) - 2)
-        for what, detail in broken:
-            ctx.report({"unchecked": what, "detail": detail,
-                        "searched": "%d schedules on the implementation, none violates the monitor" % len(terms)},
-                       {"kind": "tie"}, failing_input=False)
+        for what, d, feat in broken:
+            ctx.report({"unchecked": what, "detail": d,
+                        "searched": "%d schedules on the implementation, none violates the monitor" % searched},
+                       feat, failing_input=False)
     # thorough: free-running stress under the race detector (supports the tie; not a proof)
     if not quick:
         stress(ctx)
@@ -410,8 +464,10 @@ def run_check(ctx, pid):
         "schedule_length_histogram": hist(10 * (len(j["sched"]) // 10) for j in jsons),
         "threads_histogram": hist(len(j["progs"]) - 1 for j in jsons),
         "timeout_probes": hist({0: "nil", 1: "ErrWGTimeout", 2: "hung", 3: "not probed"}[j["tmo"]] for j in jsons),
+        "enumerations": enums,
+        "distinct_traces": vlib.distinct_count([[j["progs"], [[o["tid"], o["ev"], o["val"], o["count"], o["closed"], o["site"]] for o in j["obs"]]] for j in jsons]),
         "exhaustive": (not quick),
-        "exhaustive_note": "thorough: all schedules of catalogue programs 0,2,3,4 and all <=2-preemption schedules of the whole catalogue; quick: all <=1-preemption schedules of the catalogue, <=2 for three programs, plus random schedules and random programs",
+        "exhaustive_note": "thorough: every schedule of every 2-goroutine catalogue program (2,3,4,7,8) and of program 0, every <=2-preemption schedule of the whole catalogue (3 and 4 goroutines), <=3 preemptions for programs 0,1,5; quick: every <=1-preemption schedule of the catalogue, <=2 for three programs, plus random schedules and random programs; counts per program in `enumerations` (complete = the enumeration finished below its cap)",
         "samples": [view(j) for j in jsons[:1] + jsons[len(jsons) // 2:len(jsons) // 2 + 1]],
         "violating_cases": len(fails), "model_differences": len(diffs),
     })
@@ -451,7 +507,7 @@ def replay(ctx, pid, path):
         print("replay run failed")
         return 2
     judge_name = {"C01": "c01_judge", "C02": "c02_judge"}[pid]
-    bad, _, err = ctx.judge_cases(HEADER, "wg_case", judge_name, [terms[0]], tag="replay")
+    bad, _, err = judge(ctx, judge_name, [terms[0]], "replay")
     print(json.dumps(view(jsons[0]), indent=1))
     if err:
         print(err)
